@@ -261,6 +261,20 @@ def transpose_jobs(tier, seed):
     return jobs
 
 
+def query_jobs(tier, seed):
+    """C08: for every reachable store of a few scenarios the whole query menu of MC_Store!QueriesOf (single constraints of
+    every kind, all ordered pairs, unions, limits, one level of (optional) sub-queries), each as STAMQL text and built."""
+    quick = tier == 'quick'
+    big = dict(MaxAnns=10, MaxRes=3, MaxData=8, MaxSets=2, MaxKeys=4)
+    jobs = [mc_job('mc_complex_small', 'complex', maxanns=2),
+            gen_job('query_p6', 'remove', 6, depth=0 if quick else 1, style=0, reads=['queries'], **big),
+            gen_job('query_p5', 'remove', 5, depth=0 if quick else 1, style=2, reads=['queries'], **big),
+            gen_job('query_p10', 'remove', 10, depth=0, size='v', style=3, reads=['queries'], **big)]
+    if not quick:
+        jobs.append(gen_job('query_v5', 'all', 5, depth=1, size='v', style=0, reads=['queries'], **big))
+    return jobs
+
+
 def parse_jobs(tier, seed):
     """C09: every query of the grammar menu (printed by the specification's canonical printer, and built programmatically),
     token-level mutations of a set of seed queries, and hand-written inputs outside the SELECT grammar."""
@@ -332,6 +346,8 @@ def plan_for(prop, tier, seed, replay_file=None):
     if prop in ('C05', 'C11', 'C15'):
         return dict(jobs=roundtrip_jobs(prop, tier, seed), rule=STORE_RULE + '; every history is extended with serialisation round trips '
                     'after which it continues on the reloaded store', assumptions=STORE_ASSUMPTIONS)
+    if prop == 'C08':
+        return dict(jobs=query_jobs(tier, seed), rule=TABLE_RULE, assumptions=STORE_ASSUMPTIONS)
     if prop == 'C09':
         return dict(jobs=parse_jobs(tier, seed), rule='TLC enumerates the STAMQL grammar menu (Gen_Query.tla), prints every query with the '
                     'specification\'s canonical printer and derives token-level mutations; the harness parses, prints and re-parses each '
